@@ -134,9 +134,12 @@ func (p *Processor[K, T]) process(isNext bool) {
 
 // Processing loop.
 func (p *Processor[K, T]) processLoop() {
+	released := false
 	defer func() {
 		// Release the channel when exiting
-		<-p.processorRunningCh
+		if !released {
+			<-p.processorRunningCh
+		}
 	}()
 
 	var (
@@ -151,6 +154,12 @@ func (p *Processor[K, T]) processLoop() {
 		// Continue processing items until the queue is empty
 		p.lock.Lock()
 		r, ok = p.queue.Peek()
+		if !ok {
+			// Release the channel while still holding the lock: Enqueue decides under the same lock
+			// whether a loop is running, so it can never hand an item to a loop that is about to exit
+			<-p.processorRunningCh
+			released = true
+		}
 		p.lock.Unlock()
 		if !ok {
 			verifPoint("loop.empty")
